@@ -111,6 +111,21 @@ def suite_transform(ctx, case):
         # a second Domain (same length, other spacing) is built and re-spaced AFTER d was configured: Domains are independent objects
         decoy = pyPRISM.Domain(length=L, dr=float(d.dr) * 0.37); decoy.dk = float(d.dk) * 1.9
         decoy2 = pyPRISM.Domain(length=L + 3, dr=0.05)
+    if case.get('glue'):
+        # the Domain is USED by the rest of the library before the transforms: every omega class is evaluated on its k grid and every
+        # potential class on its r grid (what PRISM.__init__ does with the System's Domain).  A Domain lends its grids, it does not give them away.
+        O = pyPRISM.omega; P = pyPRISM.potential; sg = 30.0 * float(d.dr)
+        users = [lambda: O.Gaussian(sigma=0.8, length=7).calculate(d.k), lambda: O.FreelyJointedChain(length=6, l=0.8).calculate(d.k), lambda: O.GaussianRing(sigma=1.3, length=5).calculate(d.k),
+                 lambda: O.NonOverlappingFreelyJointedChain(length=4, l=1.1).calculate(d.k), lambda: O.DiscreteKoyama(sigma=1.0, l=0.9, length=5, lp=1.6).calculate(d.k),
+                 lambda: O.SingleSite().calculate(d.k), lambda: O.NoIntra().calculate(d.k), lambda: O.FromArray(np.ones(L), d.k).calculate(d.k),
+                 lambda: P.HardSphere(sigma=sg).calculate(d.r), lambda: P.LennardJones(epsilon=0.7, sigma=sg).calculate(d.r), lambda: P.LennardJones(epsilon=0.7, sigma=sg, rcut=2.5 * sg, shift=True).calculate(d.r),
+                 lambda: P.WeeksChandlerAndersen(epsilon=1.0, sigma=sg).calculate(d.r), lambda: P.HardCoreLennardJones(epsilon=0.5, sigma=sg).calculate(d.r), lambda: P.Exponential(epsilon=0.5, alpha=0.4 * sg, sigma=sg).calculate(d.r)]
+        for u_ in users:
+            try:
+                with np.errstate(all='ignore'): u_()
+            except Exception:
+                pass
+        fresh_pred(ctx, 'transform', case, d)
     f = mk_array(case['akind'], L, case['aseed']); g = mk_array('normal', L, case['aseed'] + 1); a = case.get('a', 1.7)
     f_given = f.copy()
     try:
@@ -290,7 +305,7 @@ def generate(ctx):
         case = gen_dom(rng, min(maxL, ctx.n(48, 160)), 4)
         case['akind'] = rng.choice(['normal', 'normal', 'spike', 'smooth', 'wide', 'ones', 'int', 'bool']); case['aseed'] = rng.randrange(10 ** 6)
         case['a'] = float('%.4g' % rng.uniform(-3, 3)); case['decoy'] = rng.random() < 0.5
-        case['stack'] = rng.choice([0, 0, 1, 2, 3])
+        case['stack'] = rng.choice([0, 0, 1, 2, 3]); case['glue'] = rng.random() < 0.3
         L = cur_len(case)
         ctx.case('transform', case, True, tags=['akind:' + case['akind'], 'L<=%d' % (16 * ((L + 15) // 16)), 'hist' if case['ops'] else 'nohist'])
         suite_transform(ctx, case)
